@@ -3,7 +3,6 @@ package checks
 import (
 	"fmt"
 	"go/ast"
-	"go/constant"
 	"go/token"
 	"go/types"
 	"sort"
@@ -12,6 +11,7 @@ import (
 	"golang.org/x/tools/go/ssa"
 
 	"verif/sa/internal/core"
+	"verif/sa/internal/eff"
 )
 
 // O15.8 — section coverage of every stream decoder of the proving system.
@@ -136,6 +136,21 @@ func certainlyNonNil(ev ssa.Value, at *ssa.BasicBlock, depth int) bool {
 			n := callee.String()
 			if n == "errors.New" || n == "fmt.Errorf" || strings.HasPrefix(n, "errors.Join") {
 				return true
+			}
+			// an in-repo error constructor (invalidMode(mode)): every return of it yields a certainly non-nil error
+			if len(callee.Blocks) > 0 && callee.Pkg != nil && core.InRepo(callee.Pkg.Pkg.Path()) && callee.Signature.Results().Len() == 1 && isErrorType(callee.Signature.Results().At(0).Type()) {
+				all, n := true, 0
+				for _, cb := range callee.Blocks {
+					if cr, ok := cb.Instrs[len(cb.Instrs)-1].(*ssa.Return); ok {
+						n++
+						if !certainlyNonNil(cr.Results[0], cb, depth+1) {
+							all = false
+						}
+					}
+				}
+				if all && n > 0 {
+					return true
+				}
 			}
 		}
 	case *ssa.Phi:
@@ -650,55 +665,31 @@ func checkCommandsUseLoader(p *core.Program, r *core.Report, li *loaderInfo) {
 			}
 		}
 	}
+	// the commands of today's interface that consume a keys file (a new read-only command that only peeks at the header is
+	// not one of them)
+	consumers := map[string]string{"start": "keys-file", "prove": "keys-file", "verify": "keys-file", "export-solidity": "keys-file", "export-vk": "keys-file", "convert-to-raw": "input"}
+	g := eff.BuildGraph(p)
 	n := 0
 	for _, c := range cliCommands(p) {
+		flag, isConsumer := consumers[c.Name]
 		act := actionSSA(p, c)
-		if act == nil {
+		if act == nil || !isConsumer {
 			continue
 		}
-		// does the action read a keys-file flag?
-		flag := ""
-		reach := map[*ssa.Function]bool{}
-		var visit func(f *ssa.Function, depth int)
-		usesLoader := false
-		visit = func(f *ssa.Function, depth int) {
-			if f == nil || reach[f] || depth > 8 {
-				return
+		roots := []*ssa.Function{act}
+		var addAnon func(f *ssa.Function)
+		addAnon = func(f *ssa.Function) {
+			for _, a := range f.AnonFuncs {
+				roots = append(roots, a)
+				addAnon(a)
 			}
-			reach[f] = true
+		}
+		addAnon(act)
+		usesLoader := false
+		for f := range g.Reach(roots...) {
 			if loaderFns[f] {
 				usesLoader = true
 			}
-			for _, a := range f.AnonFuncs {
-				visit(a, depth+1)
-			}
-			for _, b := range f.Blocks {
-				for _, in := range b.Instrs {
-					ci, ok := in.(ssa.CallInstruction)
-					if !ok {
-						continue
-					}
-					sc := ci.Common().StaticCallee()
-					if sc == nil {
-						continue
-					}
-					if sc.Name() == "String" && sc.Pkg != nil && strings.HasPrefix(sc.Pkg.Pkg.Path(), "github.com/urfave/cli") && len(ci.Common().Args) == 2 {
-						if k, ok := ci.Common().Args[1].(*ssa.Const); ok && k.Value != nil && k.Value.Kind() == constant.String {
-							name := constant.StringVal(k.Value)
-							if name == "keys-file" || (name == "input" && c.Name == "convert-to-raw") {
-								flag = name
-							}
-						}
-					}
-					if len(sc.Blocks) > 0 && core.InRepo(pkgPathOf(sc)) {
-						visit(sc, depth+1)
-					}
-				}
-			}
-		}
-		visit(act, 0)
-		if flag == "" {
-			continue
 		}
 		n++
 		cn := "main.cmd:" + c.Name + ": the keys file is read by a loader of the load chain"
